@@ -44,15 +44,20 @@ theorem detect_route_g (X : ImpGen.Ext) (req : Req) (g : Route → ImpGen.GoRout
     intro r; rw [hg.method]; show (req.method == r.method) = decide _
     by_cases h : req.method = r.method <;> simp [h]
   unfold ImpGen.RouterJSR311_detectRoute
+  unfold_gen_helpers keeping ImpGen.Route_matchesContentType ImpGen.Route_matchesAccept
   dsimp only
   rw [T7.enum_filter_loop g (passesConds · req)]
   case hf =>
     intro k r acc hk
     dsimp only
-    rw [T7.all_loop (fun (fn : HttpRequest → Bool) => fn (genReq req)) _ _ _ (fun _ _ => rfl)]
     have hp : (g r).If.all (fun fn => fn (genReq req)) = passesConds r req := by
       rw [hg.conds]; simp only [passesConds, List.all_map]; rfl
-    rw [hp, Bool.true_and, at?_nat, List.getElem?_map, hk]
+    -- the If-conditions: all of them must hold (a flag and `break`, or a helper returning early)
+    rw [T7.all_loop_gen (fun (fn : HttpRequest → Bool) => fn (genReq req))]
+    case hf =>
+      intro fn
+      cases fn (genReq req) <;> rfl
+    simp only [hp, at?_nat, List.getElem?_map, hk, Option.map_some, Option.bind_eq_bind, Option.bind_some]
     cases passesConds r req <;> rfl
   simp only [Option.bind_eq_bind, Option.bind_some]
   rw [T7.filter_loop (fun r => some (g r)) (fun r => decide (req.method = r.method))]
@@ -66,8 +71,12 @@ theorem detect_route_g (X : ImpGen.Ext) (req : Req) (g : Route → ImpGen.GoRout
     intro r acc
     have hM : (g r).Method = r.method := hg.method r
     simp only [deref, Option.bind_some, hM]
-    rw [T7.any_flag_loop (fun m => m == r.method) _ _ _ (fun _ _ => rfl)]
-    simp only [Bool.false_or, List.any_beq', Option.bind_some]
+    -- "the method is listed already": a flag set in an inner loop, in whatever form the body sets it
+    rw [T7.any_loop_gen (fun m => m == r.method)]
+    case hf =>
+      intro m
+      cases (m == r.method) <;> rfl
+    simp only [List.any_beq', Option.bind_some]
     cases acc.contains r.method <;> rfl
   rw [T7.filter_loop (fun r => some (g r)) (matchesContentType · req.contentType)]
   case hf =>
